@@ -24,6 +24,18 @@ func decToD128(d decimal.Decimal) primitive.Decimal128 {
 	return dd
 }
 
+// decResult converts the exact result of an addition or multiplication to
+// Decimal128. It returns Missing if the result is not representable (more
+// than 34 significant digits or an exponent out of range) instead of silently
+// turning it into zero.
+func decResult(d decimal.Decimal) interface{} {
+	dd, ok := primitive.ParseDecimal128FromBigInt(d.Coefficient(), int(d.Exponent()))
+	if !ok {
+		return Missing
+	}
+	return dd
+}
+
 func safeD128ToDec(d primitive.Decimal128) decimal.Decimal {
 	big, exp, err := d.BigInt()
 	if err != nil {
@@ -46,33 +58,84 @@ func safeFloatToDec(f float64) decimal.Decimal {
 	return decimal.NewFromFloat(f)
 }
 
+// isNumber reports whether the value is one of the four numeric types.
+func isNumber(v interface{}) bool {
+	switch v.(type) {
+	case int32, int64, float64, primitive.Decimal128:
+		return true
+	}
+	return false
+}
+
+// addInt64 adds two int64 values and reports whether the sum is representable.
+func addInt64(a, b int64) (int64, bool) {
+	c := a + b
+	if (c > a) == (b > 0) {
+		return c, true
+	}
+	return 0, false
+}
+
+// mulInt64 multiplies two int64 values and reports whether the product is
+// representable.
+func mulInt64(a, b int64) (int64, bool) {
+	if a == 0 || b == 0 {
+		return 0, true
+	}
+	c := a * b
+	if (a == -1 && b == math.MinInt64) || (b == -1 && a == math.MinInt64) || c/b != a {
+		return 0, false
+	}
+	return c, true
+}
+
+// narrowInt32 returns the value as int32 if it is representable and as int64
+// otherwise (MongoDB promotes an overflowing int32 result to int64).
+func narrowInt32(v int64) interface{} {
+	if v >= math.MinInt32 && v <= math.MaxInt32 {
+		return int32(v)
+	}
+	return v
+}
+
 // Add will add together two numerical values. It accepts and returns int32,
-// int64, float64 and decimal128.
+// int64, float64 and decimal128. An int32 result that overflows is promoted to
+// int64; Missing is returned if an int64 result overflows or a decimal128 result
+// is not representable.
 func Add(num, inc interface{}) interface{} {
 	switch num := num.(type) {
 	case int32:
 		switch inc := inc.(type) {
 		case int32:
-			return num + inc
+			return narrowInt32(int64(num) + int64(inc))
 		case int64:
-			return int64(num) + inc
+			if res, ok := addInt64(int64(num), inc); ok {
+				return res
+			}
+			return Missing
 		case float64:
 			return float64(num) + inc
 		case primitive.Decimal128:
-			return decToD128(decimal.NewFromInt(int64(num)).Add(safeD128ToDec(inc)))
+			return decResult(decimal.NewFromInt(int64(num)).Add(safeD128ToDec(inc)))
 		default:
 			return Missing
 		}
 	case int64:
 		switch inc := inc.(type) {
 		case int32:
-			return num + int64(inc)
+			if res, ok := addInt64(num, int64(inc)); ok {
+				return res
+			}
+			return Missing
 		case int64:
-			return num + inc
+			if res, ok := addInt64(num, inc); ok {
+				return res
+			}
+			return Missing
 		case float64:
 			return float64(num) + inc
 		case primitive.Decimal128:
-			return decToD128(decimal.NewFromInt(num).Add(safeD128ToDec(inc)))
+			return decResult(decimal.NewFromInt(num).Add(safeD128ToDec(inc)))
 		default:
 			return Missing
 		}
@@ -85,20 +148,20 @@ func Add(num, inc interface{}) interface{} {
 		case float64:
 			return num + inc
 		case primitive.Decimal128:
-			return decToD128(safeFloatToDec(num).Add(safeD128ToDec(inc)))
+			return decResult(safeFloatToDec(num).Add(safeD128ToDec(inc)))
 		default:
 			return Missing
 		}
 	case primitive.Decimal128:
 		switch inc := inc.(type) {
 		case int32:
-			return decToD128(safeD128ToDec(num).Add(decimal.NewFromInt(int64(inc))))
+			return decResult(safeD128ToDec(num).Add(decimal.NewFromInt(int64(inc))))
 		case int64:
-			return decToD128(safeD128ToDec(num).Add(decimal.NewFromInt(inc)))
+			return decResult(safeD128ToDec(num).Add(decimal.NewFromInt(inc)))
 		case float64:
-			return decToD128(safeD128ToDec(num).Add(safeFloatToDec(inc)))
+			return decResult(safeD128ToDec(num).Add(safeFloatToDec(inc)))
 		case primitive.Decimal128:
-			return decToD128(safeD128ToDec(num).Add(safeD128ToDec(inc)))
+			return decResult(safeD128ToDec(num).Add(safeD128ToDec(inc)))
 		default:
 			return Missing
 		}
@@ -108,32 +171,43 @@ func Add(num, inc interface{}) interface{} {
 }
 
 // Mul will multiply the two numerical values. It accepts and returns int32,
-// int64, float64 and decimal128.
+// int64, float64 and decimal128. An int32 result that overflows is promoted to
+// int64; Missing is returned if an int64 result overflows or a decimal128 result
+// is not representable.
 func Mul(num, mul interface{}) interface{} {
 	switch num := num.(type) {
 	case int32:
 		switch mul := mul.(type) {
 		case int32:
-			return num * mul
+			return narrowInt32(int64(num) * int64(mul))
 		case int64:
-			return int64(num) * mul
+			if res, ok := mulInt64(int64(num), mul); ok {
+				return res
+			}
+			return Missing
 		case float64:
 			return float64(num) * mul
 		case primitive.Decimal128:
-			return decToD128(decimal.NewFromInt(int64(num)).Mul(safeD128ToDec(mul)))
+			return decResult(decimal.NewFromInt(int64(num)).Mul(safeD128ToDec(mul)))
 		default:
 			return Missing
 		}
 	case int64:
 		switch mul := mul.(type) {
 		case int32:
-			return num * int64(mul)
+			if res, ok := mulInt64(num, int64(mul)); ok {
+				return res
+			}
+			return Missing
 		case int64:
-			return num * mul
+			if res, ok := mulInt64(num, mul); ok {
+				return res
+			}
+			return Missing
 		case float64:
 			return float64(num) * mul
 		case primitive.Decimal128:
-			return decToD128(decimal.NewFromInt(num).Mul(safeD128ToDec(mul)))
+			return decResult(decimal.NewFromInt(num).Mul(safeD128ToDec(mul)))
 		default:
 			return Missing
 		}
@@ -146,20 +220,20 @@ func Mul(num, mul interface{}) interface{} {
 		case float64:
 			return num * mul
 		case primitive.Decimal128:
-			return decToD128(safeFloatToDec(num).Mul(safeD128ToDec(mul)))
+			return decResult(safeFloatToDec(num).Mul(safeD128ToDec(mul)))
 		default:
 			return Missing
 		}
 	case primitive.Decimal128:
 		switch mul := mul.(type) {
 		case int32:
-			return decToD128(safeD128ToDec(num).Mul(decimal.NewFromInt(int64(mul))))
+			return decResult(safeD128ToDec(num).Mul(decimal.NewFromInt(int64(mul))))
 		case int64:
-			return decToD128(safeD128ToDec(num).Mul(decimal.NewFromInt(mul)))
+			return decResult(safeD128ToDec(num).Mul(decimal.NewFromInt(mul)))
 		case float64:
-			return decToD128(safeD128ToDec(num).Mul(safeFloatToDec(mul)))
+			return decResult(safeD128ToDec(num).Mul(safeFloatToDec(mul)))
 		case primitive.Decimal128:
-			return decToD128(safeD128ToDec(num).Mul(safeD128ToDec(mul)))
+			return decResult(safeD128ToDec(num).Mul(safeD128ToDec(mul)))
 		default:
 			return Missing
 		}
